@@ -10,6 +10,7 @@ run_project(): one run of the REAL runner on a generated project, under the reco
       "report_view": gen.reports.nf_report(session.report)           children through the real rank-sorted accessors (C05 oracle)
       "attachments": [[raw file name, size, content]]                listing of <report_dir>/attachments before it is removed
       "att_names":   [[trace index of the fire record, raw "attachments/%04d_name"]]   (the trace carries the un-prefixed name)
+      "fire_raw":    [[event.time in ms, event.thread_id | None]]    k-th entry = k-th fire record, before canonicalisation
       "results": [[result class, reason|None]] per task              task.result after the run ("success"|"failure"|"skipped"|"exception"|"none")
       "threads": {"<int>": {"kind": "main|worker|lcc|other", "parent": int|None}}      0 = the caller of run_suites
       "fx_tokens": {"<trace index of a fixture enter record>": token}
@@ -137,6 +138,8 @@ class RecEM(AsyncEventManager):
         ctx = self.ctx
         with ctx.rec.cv:
             e = R.canon_event(event)
+            # what the writer will actually receive: the event's own time (ms) and thread_id, un-canonicalised (C05.sched)
+            ctx.fire_raw.append([e["t"], e.get("tid")])
             e["t"] = 0
             th = ctx.namer("other")
             if "tid" in e:
@@ -257,6 +260,7 @@ def run_project(project, strategy="off", gate_seed=0, interrupt_at=None, backend
     rec.thread_namer = lambda: namer("worker")
     ctx.rec, ctx.namer, ctx.fault = rec, namer, backend_fault
     ctx.att_names, ctx.nfired, ctx.order_errors, ctx.pending_failure_at = [], 0, [], None
+    ctx.fire_raw = []
     interp = Interp(rec, namer)
     side = {"graph": None, "tasks": None, "outcome": None, "session": None, "deaths": []}
 
@@ -348,7 +352,7 @@ def run_project(project, strategy="off", gate_seed=0, interrupt_at=None, backend
             "threads": {str(k): v for k, v in namer.info.items()},
             "fx_tokens": {str(k): v for k, v in interp.fx_tokens.items()},
             "injected": list(interp.injected_seen), "api_errors": list(interp.api_errors),
-            "att_names": list(ctx.att_names), "pending_failure_at": ctx.pending_failure_at,
+            "att_names": list(ctx.att_names), "fire_raw": list(ctx.fire_raw), "pending_failure_at": ctx.pending_failure_at,
             "thread_deaths": list(side["deaths"]), "released": [list(x) if isinstance(x, (list, tuple)) else x for x in rec.released],
             "gate_watchdog": rec.watchdog_fired, "order_errors": list(ctx.order_errors), "nb_events": ctx.nfired,
         })
